@@ -1710,6 +1710,13 @@ func (db *DB) Dump(w io.Writer, tableNames ...string) error {
 	defer conn.Close()
 	ctx := context.Background()
 
+	// Read everything inside a single transaction, so the schema and every table
+	// are dumped as of the same point in time, even if writes are in flight.
+	if _, err := conn.ExecContext(ctx, "BEGIN"); err != nil {
+		return err
+	}
+	defer conn.ExecContext(ctx, "ROLLBACK")
+
 	// Convenience function to convert string query to protobuf.
 	commReq := func(query string) *command.Request {
 		return &command.Request{
